@@ -325,11 +325,11 @@ qb_util_stopwatch_split(qb_util_stopwatch_t *sw)
 		qb_util_stopwatch_start(sw);
 	}
 	new_entry_pos = sw->split_entries % (sw->split_size);
-	sw->split_entry_list[new_entry_pos] = qb_util_nano_current_get();
-	sw->split_entries++;
-
-	time_start = sw->split_entry_list[new_entry_pos];
-	if (sw->split_entries == 1) {
+	/*
+	 * read the previous split before storing the new one: with room
+	 * for a single split they share the slot.
+	 */
+	if (sw->split_entries == 0) {
 		/* first entry */
 		time_end = sw->started;
 	} else if (new_entry_pos == 0) {
@@ -338,6 +338,10 @@ qb_util_stopwatch_split(qb_util_stopwatch_t *sw)
 	} else {
 		time_end = sw->split_entry_list[(new_entry_pos - 1) % sw->split_size];
 	}
+	sw->split_entry_list[new_entry_pos] = qb_util_nano_current_get();
+	sw->split_entries++;
+
+	time_start = sw->split_entry_list[new_entry_pos];
 	return (time_start - time_end) / QB_TIME_NS_IN_USEC;
 }
 
